@@ -32,8 +32,15 @@ def _case(draw):
     L = abs(tf - t0)
     prob = draw(PR.lin_params(dims=(2,), horizon=3 * L))
     frac = draw(st.sampled_from([1 / 4.0, 1 / 8.0, 1 / 16.0, 0.1, 0.3, 0.05, 0.5]))
-    return dict(part="lookup", method=method, dtype="float64", prob=prob, y0=draw(PR.state([2])), t0=t0, tf=tf, dt=L * frac,
-                rtol=1e-6, atol=1e-6, dense=draw(st.booleans()), cut=draw(st.sampled_from([None, 0.5, 0.3])),
+    dtype = draw(st.sampled_from(["float64", "float64", "float32"]))
+    if dtype == "float32":
+        t0, tf = float(np.float32(t0)), float(np.float32(tf))
+        if abs(t0) > 50:
+            t0, tf = float(np.float32(t0 / 100.0)), float(np.float32(tf / 100.0))
+        L = abs(tf - t0)
+    return dict(part="lookup", method=method, dtype=dtype, qtype=draw(st.sampled_from(["np64", "np64", "pyfloat", "grid_dtype"])),
+                redundant=draw(st.sampled_from([None, None, "integrate", "integrate_to_end", "both"])), prob=prob, y0=draw(PR.state([2])), t0=t0, tf=tf, dt=L * frac,
+                rtol=1e-6 if dtype == "float64" else 1e-4, atol=1e-6 if dtype == "float64" else 1e-4, dense=draw(st.booleans()), cut=draw(st.sampled_from([None, 0.5, 0.3])),
                 qfrac=draw(st.lists(st.floats(0.0, 1.0), min_size=4, max_size=8)), outside=draw(st.sampled_from([0.1, 1.0, 10.0])), itype=draw(st.integers(0, 3)),
                 against=draw(st.sampled_from([False, False, True])), flip_tf=draw(st.sampled_from([False, False, True])),
                 watch_event=draw(st.sampled_from([False, False, True])))
@@ -50,7 +57,7 @@ def check(case):
     fam = M.family(M.get(method))
     backward = case["tf"] < case["t0"]
     attrs = dict(method=method, family=fam, dense=bool(case["dense"]), direction="backward" if backward else "forward")
-    labels = ["family:" + fam, "dense:on" if case["dense"] else "dense:off", "backward" if backward else "forward"]
+    labels = ["family:" + fam, "dense:on" if case["dense"] else "dense:off", "backward" if backward else "forward", "dtype:" + case.get("dtype", "float64")]
     mirror = case["t0"] - (case["tf"] - case["t0"])
     if case.get("against"):
         # the system is declared over the mirrored span and every call is an explicit integrate(t) against it
@@ -100,6 +107,14 @@ def check(case):
             if isinstance(err.__cause__, de.exception_types.FailedToMeetTolerances) and fam.startswith("implicit"):
                 return [], dict(nontrivial=False, labels=labels + ["reported_failure"])
             return [V("integrate_raised", "{!r} caused by {!r}".format(err, err.__cause__), fam + exc_sig(err), **attrs)], dict(nontrivial=False, labels=labels)
+    if case.get("redundant"):
+        # calls made when the system is already at its target change nothing (C13) - in particular not what a lookup returns
+        n_before = len(a)
+        for how in (["integrate", "integrate_to_end"] if case["redundant"] == "both" else [case["redundant"]]):
+            err = traj.run_integrate(a, None if how == "integrate" and not case.get("against") else a.t[-1], step_limit=len(a) + 5)
+            if err is not None or len(a) != n_before:
+                return [V("noop_call", "a call made at the target raised {!r} / recorded {} more samples".format(err, len(a) - n_before), "noop", **attrs)], dict(nontrivial=False, labels=labels)
+        labels.append("redundant_call_before_the_lookups")
     if case.get("flip_tf") and not case.get("against"):
         try:
             a.tf = mirror        # the span is re-declared the other way after the run, before anything is looked up
@@ -161,8 +176,12 @@ def check(case):
         queries += [t[k] + 0.25 * (t[k + 1] - t[k]), t[k] + 0.75 * (t[k + 1] - t[k])]
     left_nearer = False
     if not viols:
+        gdt = np.float32 if case.get("dtype") == "float32" else np.float64
+        qkind = case.get("qtype", "np64")
+        labels.append("query_as:" + qkind)
         for q in queries[:200]:
-            qq = np.float64(q)
+            qq = np.float64(q) if qkind == "np64" else (float(q) if qkind == "pyfloat" else gdt(q))
+            q = float(qq)
             try:
                 got = a[qq]
             except Exception as e:
@@ -183,7 +202,10 @@ def check(case):
                 if len(hit) == 0 or not np.array_equal(np.asarray(got.y), y[hit[0]]):
                     viols.append(V("time_lookup_not_a_sample", "system[{!r}] returned t={!r} which is not a recorded sample".format(q, gt), sig, **attrs))
                     break
-                if abs(gt - q) > dmin * (1 + 1e-12) + 1e-300:
+                # (a query that is not a double-precision number of its own is compared in the precision of the grid: distances
+                # that differ by less than the rounding of the operands are a tie)
+                slack = 0.0 if (gdt is np.float64 or qkind == "np64") else 4 * float(np.finfo(np.float32).eps) * max(abs(q), abs(gt), dmin)
+                if abs(gt - q) > dmin * (1 + 1e-12) + 1e-300 + slack:
                     viols.append(V("time_lookup_nearest", "system[{!r}] returned the sample at t={!r} (distance {:.3e}) but the sample at t={!r} is nearer (distance {:.3e}); {} grid {}".format(
                         q, gt, abs(gt - q), float(t[int(np.argmin(d))]), dmin, "backward" if backward else "forward", t[:5].tolist()), sig, **attrs))
                     break
